@@ -94,7 +94,13 @@ def run(ctx: Ctx):
     # ---- R05.a path table of the explicit Euler builder ------------------------
     ctx.rule("R05.a", "explicit Euler path table: every derivative path stores STATE + DT*DERIV at the state's slot after defining the derivative; nothing else is stored", floor=4)
     euler_name = table.get("explicit_euler")
-    if euler_name is None or euler_name not in models:
+    errs = ctx.__dict__.get("_scheme_model_errors", {})
+    if euler_name is not None and (euler_name in models or euler_name in errs):
+        common.check_single_pass(ctx, "R05.a", euler_name)
+    if euler_name in errs:
+        ctx.undecided("R05.a", gs.key("path-table"), f"the path table of {euler_name} is not built: {errs[euler_name][:120]}")
+        euler_name = None
+    elif euler_name is None or euler_name not in models:
         ctx.fail("R05.a", gs.key("alias::explicit_euler"), f"get_scheme does not map 'explicit_euler' to a scheme builder (maps to {euler_name!r})", gs.where())
         euler_name = "explicit_euler" if "explicit_euler" in models else None
     if euler_name:
@@ -286,3 +292,7 @@ def run(ctx: Ctx):
     slot_families(ctx, "R05.e", only_family="STATE", floor=False, producers=lambda p: p.func.qualname in ("CodeGenerator.initial_state_values", "CodeGenerator._state_assignments", euler_name or "explicit_euler"))
     ctx.rule("R05.f", "every argument order names states, t, dt, parameters by their own letters", floor=10)
     argument_orders(ctx, "R05.f")
+    ctx.rule("R05.g", "the jax step returns the slots of its body in slot order (_values_0 .. _values_{n-1})", floor=3)
+    from .c03 import jax_template
+
+    jax_template(ctx, "R05.g")
